@@ -2,6 +2,7 @@ import OtelVerif.Model.C20
 import OtelVerif.Lemmas.C20
 import OtelVerif.Lemmas.C20Mon
 import OtelVerif.Lemmas.C20Bridge
+import OtelVerif.Lemmas.C20Expand
 /-!
 # C20 — collector run loop: one live service at a time, orderly reload, ends Closed
 
@@ -361,6 +362,35 @@ theorem C20_model_quiet_accepted (s : S) (h : Reachable .fixed s) (hq : Quiescen
 theorem C20_model_quiet_rejected_pinned :
     (run .pinned lostWitness).map (fun s => (s.closers, s.anyReady, s.pc, check (s.log ++ [.quiet]))) =
       some (0, false, .select, false) := by
+  decide
+
+/-! ## service.Start / service.Shutdown as many steps: component-level logs -/
+
+/-- Any accepted service-level log stays accepted when every service-level event is replaced by what a real service
+does at component level, in the shape C10 proves of `service.Start/Shutdown` (taken here as the definition of `expand`):
+generation `g` has `n g` components, all created by `service.New`; `service.Start` starts them one after the other and
+stops at the first failure (`k g ≤ n g` started); `service.Shutdown` shuts every one of them down exactly once. -/
+theorem C20_expand_accepted (n k : Nat → Nat) (hk : ∀ g, k g ≤ n g) (t : List TEv) (h0 : ∀ e ∈ t, e.idx0 = true)
+    (h : check t = true) : check (t.flatMap (expand n k)) = true := by
+  obtain ⟨m, hm⟩ := check_ok h
+  obtain ⟨M, hM, _⟩ := exp_run (n := n) hk h0
+    (⟨by simp, by simp, rfl, rfl, rfl, rfl, rfl, rfl, rfl⟩ : Exp k ({} : Mon) ({} : Mon)) hm
+  simp [check, hM]
+
+/-- Hence: for every reachable state of the run-loop model, every choice of component counts and of how far each
+`service.Start` got, the component-level log satisfies the trace-level statement (no component of two generations live at
+once, each component shut down at most once and — at Run's return — exactly once if started, providers once, Closed
+after a stop branch). This is the log format the monitor judges on the real collector (3 components per generation). -/
+theorem C20_model_component_trace_ok (v : Variant) (s : S) (h : Reachable v s) (n k : Nat → Nat) (hk : ∀ g, k g ≤ n g) :
+    TraceOK (s.log.flatMap (expand n k)) :=
+  C20_check_sound _ (C20_expand_accepted n k hk s.log (logIdx0_reachable h) (C20_model_log_accepted v s h))
+
+/-- non-vacuity: 3 components per service, the second generation's Start fails after 1 component -/
+example : (run .fixed [.begin, .step true, .step true, .step true, .step true, .post .hup, .pick .hup, .step true, .step true,
+    .step true, .step true, .step false, .step true]).map
+    (fun s => (s.log.flatMap (expand (fun _ => 3) (fun g => if g = 2 then 1 else 3))).filter
+      (fun e => match e with | .started _ _ | .shut _ _ => true | _ => false)) =
+    some [.started 1 0, .started 1 1, .started 1 2, .shut 1 0, .shut 1 1, .shut 1 2, .started 2 0, .shut 2 0, .shut 2 1, .shut 2 2] := by
   decide
 
 end OtelVerif.C20
